@@ -14,6 +14,15 @@ structure Atom where
   args : List String
 deriving DecidableEq, Repr
 
+/-- one syntactic access to a watched struct field (Tie A, C12) -/
+structure Acc where
+  fn    : String        -- `<Package>.<Type>.<method>` or `<Package>.<func>`
+  field : String
+  recv  : String        -- the expression whose field is accessed
+  write : Bool
+  locks : List String   -- mutex expressions syntactically held
+deriving DecidableEq, Repr
+
 /-- is this atom a call of a function / method named `f` (whatever the receiver)? -/
 def Atom.isCall (a : Atom) (f : String) : Bool := a.kind == .call_ && a.name == f
 def Atom.isSend (a : Atom) (ch : String) : Bool := a.kind == .send_ && a.name == ch
